@@ -289,3 +289,30 @@ Lemma utf16_column d o :
   (Known_C19_astral_before d o = true ->
      fst (o2p d o) = fst (o2p16 d o) /\ snd (o2p d o) < snd (o2p16 d o)).
 Proof. split; [apply o2p16_agree | apply o2p16_differ]. Qed.
+
+(* ------------------------------------------------------------------ terminal column vs character column *)
+
+Lemma text_blen_ascii l : existsb multibyte l = false -> text_blen l = Z.of_nat (length l).
+Proof.
+  induction l as [|c l IH]; [reflexivity|]. cbn [existsb text_blen length]. unfold multibyte at 1.
+  pose proof (blen_range c) as Hb. destruct (1 <? blen c) eqn:E; cbn [orb]; [discriminate|].
+  intros Hx. rewrite IH by exact Hx. lia.
+Qed.
+
+Lemma text_blen_multibyte l : existsb multibyte l = true -> Z.of_nat (length l) < text_blen l.
+Proof.
+  induction l as [|c l IH]; [discriminate|]. cbn [existsb text_blen length]. unfold multibyte at 1.
+  pose proof (blen_range c) as Hb. pose proof (text_blen_length l) as Hl.
+  destruct (1 <? blen c) eqn:E; cbn [orb]; [lia|]. intros Hx. specialize (IH Hx). lia.
+Qed.
+
+Lemma terminal_column m d o : 0 <= o -> text_blen d < 2 ^ 64 - 1 -> boundary d o ->
+  exists ln cn t, line_info_m m d o = Val (ln, cn, t) /\
+    (Known_C19_multibyte_before d o = false -> cn = snd (o2p d o) + 1) /\
+    (Known_C19_multibyte_before d o = true -> snd (o2p d o) + 1 < cn).
+Proof.
+  intros Ho Hd B. destruct (line_info_consistent m d o Ho Hd) as (ln & cn & t & L & _ & _ & _ & F).
+  destruct (F B) as [F1 F2]. exists ln, cn, t. split; [exact L|].
+  rewrite F2, F1. rewrite o2p_counting. unfold pos_of, since_nl, Known_C19_multibyte_before. cbn [snd].
+  split; intros K; [rewrite text_blen_ascii by exact K; reflexivity | apply text_blen_multibyte in K; lia].
+Qed.
